@@ -31,6 +31,14 @@ def main():
     from . import env
 
     env.prepare()
+    contracts = None
+    if os.environ.get("FINSBERG_GOTRANX_VERIF") == "1" and os.environ.get("VERIF_CONTRACTS", "1") == "1":
+        try:
+            from ..monitors import contracts
+
+            contracts.attach()
+        except Exception:
+            contracts = None
     mod = importlib.import_module(f"vf.props.{prop.lower()}")
     signal.signal(signal.SIGALRM, _alarm)
     ctx = {}
@@ -57,6 +65,20 @@ def main():
             }
         finally:
             signal.setitimer(signal.ITIMER_REAL, 0)
+        if contracts is not None:
+            cc, cf = contracts.drain()
+            rec["contracts"] = cc
+            rec["contracts_attached"] = dict(contracts.ATTACHED)
+            for f_ in cf:
+                rec.setdefault("violations", []).append({"kind": "contract", "subkind": f_["contract"], "detail": f_, "finding": None})
+                rec["status"] = "violated"
+        vs = rec.get("violations") or []
+        if len(vs) > 12:
+            # keep every violation no matcher attributed to a listed mechanism; cap the attributed ones
+            unl = [v for v in vs if not v.get("finding")]
+            lis = [v for v in vs if v.get("finding")]
+            rec["violations_total"] = len(vs)
+            rec["violations"] = unl[:40] + lis[:12]
         rec.setdefault("id", cid)
         rec.setdefault("klass", spec.get("klass"))
         rec["wall_s"] = round(time.time() - t0, 3)
